@@ -112,11 +112,15 @@ def prio0 : Nat → Int := fun _ => 0
 /-- Does the task carry a `skip_ancestor_failed` mark? -/
 def failMarked (s : Sess) (t : Nat) : Bool := s.failMarks.contains t || s.renewed.contains t
 
-/-- `_skip_descendants_of_failed_tasks` (ee6b73e): every task below a task already reported FAIL in the (new) DAG gets the mark
-unless it has one. -/
-def renewFailMarks (g : G) (s : Sess) : List Nat :=
-  s.renewed ++ ((s.reports.filter (fun r => r.2 == Outcome.fail)).flatMap (fun r => taskDesc g r.1)).filter
+/-- `_skip_descendants_of_failed_tasks`: every task below a task whose report has one of the outcomes `roots` in the (new) DAG
+gets the mark unless it has one. -/
+def renewMarks (roots : List Outcome) (g : G) (s : Sess) : List Nat :=
+  s.renewed ++ ((s.reports.filter (fun r => roots.contains r.2)).flatMap (fun r => taskDesc g r.1)).filter
     (fun d => !(s.failMarks.contains d || s.renewed.contains d))
+
+/-- The roots are the tasks reported FAIL (ee6b73e) and the tasks skipped because an ancestor failed (501f7e1: their pattern
+dependencies are resolved all the same, so the new DAG no longer connects what lies below them to the failed task). -/
+def renewFailMarks (g : G) (s : Sess) : List Nat := renewMarks [Outcome.fail, Outcome.skipPrevFailed] g s
 
 /-- `recreate_dag`: on any exception a FAIL report for the task is appended and `should_stop` is set. -/
 def recreate (s : Sess) (t : Nat) : Sess :=
